@@ -4,6 +4,8 @@ import (
 	"fmt"
 	"sort"
 	"strings"
+	"sync"
+	"sync/atomic"
 	"testing"
 
 	"google.golang.org/protobuf/types/descriptorpb"
@@ -327,93 +329,144 @@ func TestC15(t *testing.T) {
 	nScope := r.N(160, 3000)
 	nGen := r.N(40, 800)
 	maxSites := r.N(60, 200)
-	r.Par(nScope+nGen, func(i int) {
-		var id string
-		var files []*descriptorpb.FileDescriptorProto
-		var types gen.TypeResolver
-		if i < nScope {
-			id = fmt.Sprintf("s/%d", i)
-			if !r.Want(id) {
-				return
-			}
-			fs, ty, err := genScopeModel(r.Rng(id))
-			if err != nil {
-				r.Class("scope model refused by protodesc (not decided)")
-				return
-			}
-			files, types = fs, ty
-		} else {
-			id = fmt.Sprintf("g/%d", i-nScope)
-			if !r.Want(id) {
-				return
-			}
-			rng := r.Rng(id)
-			gm, err := gen.GenModel(rng, gen.Config{MaxFiles: 4, CustomOptions: i%2 == 0, Collide: true, Small: true, Syntaxes: []string{"proto2", "proto3", "editions"}})
-			if err != nil {
-				r.Class("gen model refused by protodesc (not decided)")
-				return
-			}
-			files, types = gm.Files, gm.Types
+	type task struct {
+		m         *c15Model
+		id        string
+		fd        *descriptorpb.FileDescriptorProto
+		styleSeed uint64
+		k         siteKey
+	}
+	// Models are prepared in waves (generation + baseline compile, parallel per
+	// model); the (model, file, site class) tasks of a wave are then spread over
+	// all workers, so that one large model does not serialise the run.
+	const wave = 64
+	total := nScope + nGen
+	for lo := 0; lo < total; lo += wave {
+		hi := lo + wave
+		if hi > total {
+			hi = total
 		}
-		m, why := newC15Model(files, types)
-		if m == nil {
-			r.Class("model skipped: " + strings.SplitN(why, ":", 2)[0])
-			if strings.HasPrefix(why, "baseline rejected") {
-				r.Class("model skipped, baseline rejected: " + resolutionErrClass(why))
+		var mu sync.Mutex
+		var tasks []task
+		r.Par(hi-lo, func(j int) {
+			i := lo + j
+			var id string
+			var files []*descriptorpb.FileDescriptorProto
+			var types gen.TypeResolver
+			if i < nScope {
+				id = fmt.Sprintf("s/%d", i)
+				if !r.Want(id) {
+					return
+				}
+				fs, ty, err := genScopeModel(r.Rng(id))
+				if err != nil {
+					r.Class("scope model refused by protodesc (not decided)")
+					return
+				}
+				files, types = fs, ty
+			} else {
+				id = fmt.Sprintf("g/%d", i-nScope)
+				if !r.Want(id) {
+					return
+				}
+				rng := r.Rng(id)
+				gm, err := gen.GenModel(rng, gen.Config{MaxFiles: 4, CustomOptions: i%2 == 0, Collide: true, Small: true, Syntaxes: []string{"proto2", "proto3", "editions"}})
+				if err != nil {
+					r.Class("gen model refused by protodesc (not decided)")
+					return
+				}
+				files, types = gm.Files, gm.Types
 			}
-			return
-		}
-		r.Class("models explored")
-		srng := r.Rng(id + "/sites")
-		for fi, fd := range m.files {
-			fname := fd.GetName()
-			// half of the files are rendered with a random (but fixed) style, so that
-			// option paths with several name parts appear
-			var styleSeed uint64
-			if (i+fi)%2 == 1 {
-				styleSeed = vlib.Hash64(id+"/"+fname) | 1
+			m, why := newC15Model(files, types)
+			if m == nil {
+				r.Class("model skipped: " + strings.SplitN(why, ":", 2)[0])
+				if strings.HasPrefix(why, "baseline rejected") {
+					r.Class("model skipped, baseline rejected: " + resolutionErrClass(why))
+				}
+				return
 			}
-			var calls []siteKey
-			base, err := m.render(fd, styleSeed, nil, "", &calls)
-			if err != nil {
-				r.Inconclusive("render: " + err.Error())
-				continue
-			}
-			if styleSeed != 0 {
-				// the styled rendering must itself compile to the model
-				out := m.compileVariant(fname, base)
-				if !out.OK() {
-					r.Class("styled baseline rejected (file skipped; C01's concern)")
+			r.Class("models explored")
+			srng := r.Rng(id + "/sites")
+			var mine []task
+			for fi, fd := range m.files {
+				fname := fd.GetName()
+				// half of the files are rendered with a random (but fixed) style, so that
+				// option paths with several name parts appear
+				var styleSeed uint64
+				if (i+fi)%2 == 1 {
+					styleSeed = vlib.Hash64(id+"/"+fname) | 1
+				}
+				var calls []siteKey
+				base, err := m.render(fd, styleSeed, nil, "", &calls)
+				if err != nil {
+					r.Inconclusive("render: " + err.Error())
 					continue
 				}
-			}
-			seen := map[siteKey]bool{}
-			var keys []siteKey
-			for _, k := range calls {
-				if !seen[k] {
-					seen[k] = true
-					keys = append(keys, k)
-				}
-			}
-			if len(keys) > maxSites {
-				vlib.Shuffle(srng, keys)
-				keys = keys[:maxSites]
-			}
-			for _, k := range keys {
-				scopes := m.startScopes(fname, k)
-				for _, sp := range spellings(k) {
-					cid := fmt.Sprintf("%s/%s/%s@%s>%s/%s", id, fname, k.Kind, k.Scope, k.Target, sp)
-					if !r.Want(cid) {
+				if styleSeed != 0 {
+					// the styled rendering must itself compile to the model
+					out := m.compileVariant(fname, base)
+					if !out.OK() {
+						r.Class("styled baseline rejected (file skipped; C01's concern)")
 						continue
 					}
-					runC15Spelling(r, m, cid, fd, styleSeed, k, scopes, sp)
+				}
+				seen := map[siteKey]bool{}
+				var keys []siteKey
+				for _, k := range calls {
+					if !seen[k] {
+						seen[k] = true
+						keys = append(keys, k)
+					}
+				}
+				if len(keys) > maxSites {
+					vlib.Shuffle(srng, keys)
+					keys = keys[:maxSites]
+				}
+				for _, k := range keys {
+					mine = append(mine, task{m: m, id: id, fd: fd, styleSeed: styleSeed, k: k})
 				}
 			}
+			if i == 0 {
+				r.Sample("scope-collision model", m.src)
+			}
+			mu.Lock()
+			tasks = append(tasks, mine...)
+			mu.Unlock()
+		})
+		// the wave's tasks all belong to this batch already (r.Par selected the models)
+		var next atomic.Int64
+		var wg sync.WaitGroup
+		for wk := 0; wk < r.Workers; wk++ {
+			wg.Add(1)
+			go func() {
+				defer wg.Done()
+				for {
+					ti := int(next.Add(1) - 1)
+					if ti >= len(tasks) {
+						return
+					}
+					tk := tasks[ti]
+					func() {
+						defer func() {
+							if p := recover(); p != nil {
+								r.Inconclusive(fmt.Sprintf("harness panic in %s: %v", tk.id, p))
+							}
+						}()
+						fname := tk.fd.GetName()
+						scopes := tk.m.startScopes(fname, tk.k)
+						for _, sp := range spellings(tk.k) {
+							cid := fmt.Sprintf("%s/%s/%s@%s>%s/%s", tk.id, fname, tk.k.Kind, tk.k.Scope, tk.k.Target, sp)
+							if !r.Want(cid) {
+								continue
+							}
+							runC15Spelling(r, tk.m, cid, tk.fd, tk.styleSeed, tk.k, scopes, sp)
+						}
+					}()
+				}
+			}()
 		}
-		if i == 0 {
-			r.Sample("scope-collision model", m.src)
-		}
-	})
+		wg.Wait()
+	}
 }
 
 func runC15Spelling(r *vlib.Run, m *c15Model, cid string, fd *descriptorpb.FileDescriptorProto, styleSeed uint64, k siteKey, scopes []string, sp string) {
